@@ -30,7 +30,7 @@ package gtids
 //@ define inPrefix(a mysql.IntervalSlice, n int, x int) = exists j int :: 0 <= j && j < n && a[j].Start <= x && x < a[j].Stop
 
 //@ func mysql/gtids.intervalSliceMinus
-//@   requires norm [inv]: ivNorm(a) && ivNorm(b)
+//@   requires norm [C13]: ivNorm(a) && ivNorm(b)
 //@   ensures C13.minus_def [C13]: forall x int :: {ivHas(result, x)} {ivHas(a, x)} {ivHas(b, x)} ivHas(result, x) <==> ivHas(a, x) && !ivHas(b, x)
 //@   ensures C13.minus_norm [C13]: ivNorm(result)
 //@   loop 1 invariant idx: -1 <= rangeindex && rangeindex < len(a) && 0 <= bi && bi <= len(b)
@@ -52,7 +52,7 @@ package gtids
 // ---- C13: split-brain test against set semantics ------------------------------------------------------------------------------
 // has3(g, u, t, x): transaction x of server u (tag t) is in the set g; setNorm: the representation invariant of sets
 // produced by ParseGTIDSet / Update (no uuid without a tag, no tag without a non-empty normalised interval list).
-//@ define has3(g *gomysql.MysqlGTIDSet, u uuid, t gomysql.Tag, x int) = has(deref(g), u) && has(deref(g)[u], t) && ivHas(deref(g)[u][t], x)
+//@ define has3(g *gomysql.MysqlGTIDSet, u uuid, t gomysql.Tag, x int) = has(deref(g), u) && has(at(deref(g), u), t) && ivHas(at(at(deref(g), u), t), x)
 //@ define setNorm(g *gomysql.MysqlGTIDSet) = (forall u uuid :: has(deref(g), u) ==> deref(g)[u] != nil && (exists t gomysql.Tag :: has(deref(g)[u], t))) && (forall u uuid, t gomysql.Tag :: has(deref(g), u) && has(deref(g)[u], t) ==> ivNorm(deref(g)[u][t]) && (exists x int :: ivHas(deref(g)[u][t], x)))
 //@ func mysql/gtids.IsSplitBrained
 //@   requires norm [inv]: isMysqlSet(slaveGtidSet) && isMysqlSet(masterGtidSet) ==> setNorm(unbox(slaveGtidSet, "*github.com/go-mysql-org/go-mysql/mysql.MysqlGTIDSet")) && setNorm(unbox(masterGtidSet, "*github.com/go-mysql-org/go-mysql/mysql.MysqlGTIDSet"))
@@ -65,7 +65,7 @@ package gtids
 // ---- C13: set subtraction over the uuid / tag structure ---------------------------------------------------------------------
 // hasM is has3 over a map value (the local `result` of mysqlGTIDSetMinus is the map, its address is returned).
 // frameOuter / frameInner: the two argument sets (the outer map and every inner map they held at entry) are not written to.
-//@ define hasM(m gomysql.MysqlGTIDSet, u uuid, t gomysql.Tag, x int) = has(m, u) && has(m[u], t) && ivHas(m[u][t], x)
+//@ define hasM(m gomysql.MysqlGTIDSet, u uuid, t gomysql.Tag, x int) = has(m, u) && has(at(m, u), t) && ivHas(at(at(m, u), t), x)
 // pickTag is a choice function on tag sets (conservative: it only names a witness of non-emptiness), used to state "this
 // inner map is not empty" without an existential the solver would have to find a witness for after every store.
 //@ ufunc pickTag(set[gomysql.Tag]) gomysql.Tag
@@ -73,6 +73,9 @@ package gtids
 //@ define innerOld(g *gomysql.MysqlGTIDSet) = alive(deref(g)) && (forall u uuid :: has(deref(g), u) ==> deref(g)[u] != nil && alive(deref(g)[u]))
 //@ define frameOuter(g *gomysql.MysqlGTIDSet) = deref(g) == old(deref(g)) && content(deref(g)) == old(content(deref(g)))
 //@ define frameInner(g *gomysql.MysqlGTIDSet) = forall u uuid :: old(has(deref(g), u)) ==> content(old(deref(g)[u])) == old(content(deref(g)[u]))
+// frameAllOuter / frameAllInner: no set object that existed at entry (and no inner map such an object held) is written to.
+//@ define frameAllOuter() = forall m gomysql.MysqlGTIDSet :: !newer(m) ==> content(m) == old(content(m))
+//@ define frameAllInner() = forall m gomysql.MysqlGTIDSet, u uuid :: !newer(m) && old(has(m, u)) && !newer(old(at(m, u))) ==> content(old(at(m, u))) == old(content(at(m, u)))
 //@ func mysql/gtids.mysqlGTIDSetMinus
 //@   requires nonnil [safety]: a != nil && b != nil
 //@   requires norm [C13]: setNorm(a) && setNorm(b) && innerOld(a) && innerOld(b)
@@ -80,12 +83,14 @@ package gtids
 //@   loop 1 invariant own: (forall u uuid :: has(result$1, u) ==> visited[u] && result$1[u] != nil && newer(result$1[u]) && alive(result$1[u])) && (forall u1 uuid, u2 uuid :: has(result$1, u1) && has(result$1, u2) && u1 != u2 ==> result$1[u1] != result$1[u2])
 //@   loop 1 invariant frame_a: frameOuter(a) && frameInner(a)
 //@   loop 1 invariant frame_b: frameOuter(b) && frameInner(b)
+//@   loop 1 invariant frame_all: frameAllOuter() && frameAllInner()
 //@   loop 2 invariant cur: forall t gomysql.Tag, x int :: hasM(result$1, uid, t, x) <==> visited$2[t] && old(has3(a, uid, t, x) && !has3(b, uid, t, x))
 //@   loop 2 invariant others: forall u uuid, t gomysql.Tag, x int :: u != uid ==> (hasM(result$1, u, t, x) <==> visited$1[u] && old(has3(a, u, t, x) && !has3(b, u, t, x)))
 //@   loop 2 invariant own: (forall u uuid :: has(result$1, u) ==> visited$1[u] && result$1[u] != nil && newer(result$1[u]) && alive(result$1[u])) && (forall u1 uuid, u2 uuid :: has(result$1, u1) && has(result$1, u2) && u1 != u2 ==> result$1[u1] != result$1[u2])
 //@   loop 2 invariant ctx: old(has(deref(a), uid)) && aTagMap == old(deref(a)[uid]) && visited$1[uid] && bTagMap == old(deref(b)[uid])
 //@   loop 2 invariant frame_a: frameOuter(a) && frameInner(a)
 //@   loop 2 invariant frame_b: frameOuter(b) && frameInner(b)
+//@   loop 2 invariant frame_all: frameAllOuter() && frameAllInner()
 //@   loop 1 invariant filled_tag: forall u uuid :: has(result$1, u) ==> has(result$1[u], pickTag(dom(result$1[u])))
 //@   loop 1 invariant filled_iv: forall u uuid, t gomysql.Tag :: has(result$1, u) && has(result$1[u], t) ==> len(result$1[u][t]) > 0 && ivNorm(result$1[u][t]) && ivHas(result$1[u][t], result$1[u][t][0].Start)
 //@   loop 2 invariant filled_tag: forall u uuid :: has(result$1, u) ==> has(result$1[u], pickTag(dom(result$1[u])))
@@ -94,6 +99,27 @@ package gtids
 //@   ensures C13.set_minus_filled_tag [C13]: forall u uuid :: has(deref(result), u) ==> deref(result)[u] != nil && (exists t gomysql.Tag :: has(deref(result)[u], t))
 //@   ensures C13.set_minus_filled_iv [C13]: forall u uuid, t gomysql.Tag :: has(deref(result), u) && has(deref(result)[u], t) ==> len(deref(result)[u][t]) > 0 && ivNorm(deref(result)[u][t]) && ivHas(deref(result)[u][t], deref(result)[u][t][0].Start)
 //@   ensures C13.set_minus_args_kept [C13]: frameOuter(a) && frameInner(a) && frameOuter(b) && frameInner(b)
+//@   ensures C13.set_minus_frame [C13]: frameAllOuter() && frameAllInner()
+//@   ensures result_alive [C13]: newer(result) && alive(result) && newer(deref(result)) && alive(deref(result)) && (forall u uuid :: has(deref(result), u) ==> alive(at(deref(result), u)) && newer(at(deref(result), u)))
 //@   ensures args_norm_a [inv]: setNorm(a)
 //@   ensures args_norm_b [inv]: setNorm(b)
 //@   ensures args_alive [inv]: innerOld(a) && innerOld(b)
+
+// ---- C13: the difference text classifies the pair by the two set differences and prints exactly them ---------------------------
+//@ define msetOf(g GTIDSet) = unbox(g, "*github.com/go-mysql-org/go-mysql/mysql.MysqlGTIDSet")
+//@ func mysql/gtids.GTIDDiff
+//@   requires flavour [safety]: isMysqlSet(replicaGTIDSet) && isMysqlSet(sourceGTIDSet)
+//@   requires norm [inv]: isMysqlSet(replicaGTIDSet) && isMysqlSet(sourceGTIDSet) ==> setNorm(msetOf(replicaGTIDSet)) && setNorm(msetOf(sourceGTIDSet)) && innerOld(msetOf(replicaGTIDSet)) && innerOld(msetOf(sourceGTIDSet))
+//@   ensures C13.diff_no_error [C13]: result1 == nil
+//@   assert_at return#1 C13.diff_equal [C13]: forall u uuid, t gomysql.Tag, x int :: old(has3(mysqlSourceGTIDSet, u, t, x)) <==> old(has3(mysqlReplicaGTIDSet, u, t, x))
+//@   assert_at return#2 C13.diff_source_ahead [C13]: (exists u uuid, t gomysql.Tag, x int :: old(has3(mysqlSourceGTIDSet, u, t, x) && !has3(mysqlReplicaGTIDSet, u, t, x))) && (forall u uuid, t gomysql.Tag, x int :: old(has3(mysqlReplicaGTIDSet, u, t, x)) ==> old(has3(mysqlSourceGTIDSet, u, t, x)))
+//@   assert_at return#3 C13.diff_split [C13]: (exists u uuid, t gomysql.Tag, x int :: old(has3(mysqlSourceGTIDSet, u, t, x) && !has3(mysqlReplicaGTIDSet, u, t, x))) && (exists u uuid, t gomysql.Tag, x int :: old(has3(mysqlReplicaGTIDSet, u, t, x) && !has3(mysqlSourceGTIDSet, u, t, x)))
+//@   assert_at return#4 C13.diff_replica_ahead [C13]: (exists u uuid, t gomysql.Tag, x int :: old(has3(mysqlReplicaGTIDSet, u, t, x) && !has3(mysqlSourceGTIDSet, u, t, x))) && (forall u uuid, t gomysql.Tag, x int :: old(has3(mysqlSourceGTIDSet, u, t, x)) ==> old(has3(mysqlReplicaGTIDSet, u, t, x)))
+//@   assert_at Sprintf#1 C13.text_source_ahead [C13]: callarg0 == "source ahead on: %s" && len(callarg1) == 1 && unbox(callarg1[0], "string") == resultof("String", 4)
+//@   assert_at String#4 C13.text_source_ahead_of [C13]: callrecv == diffWithSource
+//@   assert_at Sprintf#2 C13.text_split [C13]: callarg0 == "split brain! source ahead on: %s; replica ahead on: %s" && len(callarg1) == 2 && unbox(callarg1[0], "string") == resultof("String", 7) && unbox(callarg1[1], "string") == resultof("String", 8)
+//@   assert_at String#7 C13.text_split_of_source [C13]: callrecv == diffWithSource
+//@   assert_at String#8 C13.text_split_of_replica [C13]: callrecv == diffWithReplica
+//@   assert_at Sprintf#3 C13.text_replica_ahead [C13]: callarg0 == "replica ahead on: %s" && len(callarg1) == 1 && unbox(callarg1[0], "string") == resultof("String", 11)
+//@   assert_at String#11 C13.text_replica_ahead_of [C13]: callrecv == diffWithReplica
+//@   assert_at return#1 C13.text_equal [C13]: result0 == "replica gtid equal source"
